@@ -250,10 +250,42 @@ def add_alternate_conformers(rows, seed, major="B"):
     return out
 
 
-def format_twins(structure, altloc_seed=None, edges_seed=None):
+MODIFIED_NAME = {"A": "6MZ", "C": "CBV", "G": "G7M", "U": "4SX"}
+
+
+def format_twins(structure, altloc_seed=None, edges_seed=None, modified_seed=None):
     """(structure read from PDB text, structure read from mmCIF text) of the
     same 3-decimal table, or None when the table does not fit PDB limits."""
     rows = rows_from_structure(structure)
+    extra = None
+    if modified_seed is not None:
+        # a single-chain molecule in which a few nucleotides - the LAST one among them - carry names of modified
+        # components that do not end in a base letter (HETATM records); the mmCIF member also carries the entity's
+        # canonical sequence, as deposited files do, the PDB member has the atoms only
+        import random
+
+        if len({r["chain"] for r in rows}) != 1:
+            return None
+        letters = {}
+        for r in structure.residues:
+            if r.auth is not None:
+                letters[(r.auth.chain, r.auth.number, r.auth.icode if r.auth.icode not in (" ", "?") else None)] = r.one_letter_name.upper()
+        keys = []
+        for r in rows:
+            k = (r["chain"], r["resseq"], r["icode"])
+            if k not in keys:
+                keys.append(k)
+        if any(letters.get(k) not in MODIFIED_NAME for k in keys):
+            return None
+        rng = random.Random(modified_seed)
+        chosen = set(rng.sample(keys[:-1], min(2, len(keys) - 1))) | {keys[-1]}
+        for r in rows:
+            k = (r["chain"], r["resseq"], r["icode"])
+            if k in chosen:
+                r["resname"], r["rec"] = MODIFIED_NAME[letters[k]], "HETATM"
+        seq = "".join(letters[k] for k in keys)
+        extra = [("entity", ["id", "type"], [["1", "polymer"]], "kv"),
+                 ("entity_poly", ["entity_id", "type", "pdbx_seq_one_letter_code_can"], [["1", "polyribonucleotide", seq]], "kv")]
     if edges_seed is not None:
         # fields filled to their edges: five-digit serials touching HETATM, coordinates taking all eight columns,
         # negative residue numbers (see work3d.field_edges_rows)
@@ -270,7 +302,7 @@ def format_twins(structure, altloc_seed=None, edges_seed=None):
         return None  # a blank PDB chain id has no mmCIF representation
     # both readers key residues by identity: identities must be unique
     a = read_text(emit_pdb(rows), ".pdb")
-    b = read_text(emit_cif(rows), ".cif")
+    b = read_text(emit_cif(rows, extra_cats=extra), ".cif")
     return a, b
 
 
